@@ -156,7 +156,7 @@ def run_tlc(
         text += "\nCONSTANTS\n" + "\n".join(f"  {k} = {v}" for k, v in defines.items()) + "\n"
         cfgpath = meta / f"{cfgname}.cfg"
         cfgpath.write_text(text)
-    cmd = ["java", "-XX:+UseParallelGC", f"-Xmx{heap}"]
+    cmd = ["java", "-XX:+UseParallelGC", f"-Xmx{heap}", "-Xss256m"]   # deep RECURSIVE operators on larger cases
     if dfs:
         cmd.append("-Dtlc2.tool.queue.IStateQueue=StateDeque")
     cmd += ["-cp", TLA_CP, "tlc2.TLC", "-workers", str(workers), "-metadir", str(meta / "md"),
@@ -187,8 +187,11 @@ def run_tlc(
         shutil.rmtree(meta, ignore_errors=True)
     res = TLCResult(p.returncode, p.stdout, time.time() - t0)
     if res.rc not in (0, 12, 13):
-        tail = "\n".join(p.stdout.splitlines()[-40:])
-        raise MachineryError(f"TLC failed on {module} (exit {res.rc}):\n{tail}")
+        lines = p.stdout.splitlines()
+        first = next((k for k, l in enumerate(lines) if l.startswith("Error:") or "Exception" in l), None)
+        head = "\n".join(lines[first:first + 25]) if first is not None else ""
+        tail = "\n".join(lines[-15:])
+        raise MachineryError(f"TLC failed on {module} (exit {res.rc}):\n{head}\n...\n{tail}")
     return res
 
 
